@@ -733,6 +733,24 @@ func (rn *runner) runHistory(hist []form, nflav int) (string, caseDesc, string) 
 	return term, caseDesc{Forms: forms, Flavors: obs}, canon
 }
 
+// nontrivial: some flavor has a component and some method is defined on a flavor that another one inherits
+func nontrivial(hist []form) bool {
+	inherited := map[int]bool{}
+	for _, f := range hist {
+		if f.Kind == "flavor" {
+			for _, c := range f.Comps {
+				inherited[c] = true
+			}
+		}
+	}
+	for _, f := range hist {
+		if f.Kind == "method" && inherited[f.F] {
+			return true
+		}
+	}
+	return false
+}
+
 func Run(ctx *common.Ctx) {
 	defineTr()
 	rn := &runner{ctx: ctx, scope: slip.NewScope()}
@@ -752,7 +770,7 @@ func Run(ctx *common.Ctx) {
 		term, d, canon := rn.runHistory(hist, nflav)
 		d.Program, d.Order = progNo, label
 		ctx.Meta.Evaluations++
-		if !distinct[term] {
+		if nontrivial(hist) {
 			distinct[term] = true
 		}
 		terms = append(terms, term)
@@ -831,7 +849,9 @@ func Run(ctx *common.Ctx) {
 		term, d, _ := rn.runHistory(hist, n)
 		d.Program, d.Order = progNo, "with-inadmissible-forms"
 		ctx.Meta.Evaluations++
-		distinct[term] = true
+		if nontrivial(hist) {
+			distinct[term] = true
+		}
 		terms = append(terms, term)
 		descs = append(descs, d)
 	}
@@ -840,7 +860,8 @@ func Run(ctx *common.Ctx) {
 		":default-init-plist for :k1/:k2, :gettable/:settable-instance-variables bare or listed) and up to 14 defmethod/defwhopper forms " +
 		"(primary/:before/:after/whopper on :init :go :hop :x :y :set-x); small programs in every admissible order (<=40), larger ones in " +
 		"four sampled orders (all flavors first, textual, uniform, base methods last), plus histories with inadmissible forms; every " +
-		"flavor observed through class-precedence, Simplify, make-instance, send and BoundReceive. A case is distinct by its forms+observations."
+		"flavor observed through class-precedence, Simplify, make-instance, send and BoundReceive. A case is distinct by its forms+observations " +
+		"and non-trivial when a method is defined on a flavor that another flavor inherits."
 	header := "From C11 Require Import Model Spec Corr.\nOpen Scope nat_scope.\n"
 	footer := "Definition res := Eval vm_compute in check_all cases.\nPrint res.\n" +
 		"Definition sends_inside_guard := Eval vm_compute in guard_count cases.\nPrint sends_inside_guard.\n" +
